@@ -56,17 +56,17 @@ func drawKnobs(w *vsim.World) knobs {
 // dispatcher incarnation. Every field is touched only by the root goroutine (scenario
 // code, grantable/onGrant callbacks) unless noted.
 type sim struct {
-	w        *vsim.World
-	spec     *vsim.Spec
-	k        knobs
-	cluster  *arvados.Cluster
-	types    []arvados.InstanceType // sorted by name
-	api      *apiModel
-	cloud    *cloudModel
-	faultsOn bool
+	w         *vsim.World
+	spec      *vsim.Spec
+	k         knobs
+	cluster   *arvados.Cluster
+	types     []arvados.InstanceType // sorted by name
+	api       *apiModel
+	cloud     *cloudModel
+	faultsOn  bool
 	lastFault time.Time
-	inc      *incarnation
-	nInc     int
+	inc       *incarnation
+	nInc      int
 	// fault rates (permille), drawn per run ("swarm": each run enables a subset)
 	rate map[string]int
 	// history for violation reports
@@ -74,7 +74,6 @@ type sim struct {
 	// C16 trace-invariant bookkeeping lives in the proxies of the incarnation.
 	everStarted map[string]int  // uuid -> number of crunch-run processes ever created
 	staleUnlock map[string]bool // uuids unlocked by fixStaleLocks of an incarnation while a process was alive
-	killOblig   map[string]*killObligation
 
 	t0            time.Time
 	o             scenOpts
@@ -89,16 +88,6 @@ type sim struct {
 	quiet         bool
 	nextQuietTick time.Time
 	holdSeen      bool
-}
-
-type killObligation struct {
-	uuid     string
-	inst     string
-	pid      int
-	since    time.Time
-	deadline time.Time
-	why      string
-	inc      int
 }
 
 func (s *sim) now() time.Time { return time.Now() }
